@@ -34,9 +34,12 @@ DupEntries == [rule : 1..K, affix : {"pre", "post", "inl", "inr"}, lvl : 1..Leve
 \* (operators with a parameter: TLC evaluates parameterless constant definitions at start-up, whatever the Mode)
 Regs(k) == { R \in [1..(k + 1) -> DupEntries] : /\ \A i \in 1..K : R[i].lvl <= R[i + 1].lvl
                                              /\ \A r \in 1..K : \E i \in 1..(K + 1) : R[i].rule = r }
+\* shards are cut on the registration sequence, so that each TLC process enumerates its own part of the product only
+RECURSIVE RH(_, _)
+RH(R, i) == IF i = 0 THEN 0 ELSE (5 * RH(R, i - 1) + Code([affix |-> R[i].affix, lvl |-> R[i].lvl]) + 3 * R[i].rule) % 1009
 DupCases(k) == { <<Registered(x[1], k), x[2], x[1]>> :
-                x \in { y \in Regs(k) \X Seqs(MaxLen) : /\ WellFormed(Registered(y[1], K), y[2])
-                                                      /\ (TH(y[2]) + Code(y[1][1]) + y[1][K + 1].rule) % NShards = Shard } }
+                x \in { y \in { R \in Regs(k) : RH(R, k + 1) % NShards = Shard } \X Seqs(MaxLen) :
+                          WellFormed(Registered(y[1], k), y[2]) } }
 Cases == IF Mode = "dup" THEN DupCases(K)
          ELSE { cs \in Tables \X Seqs(MaxLen) :
                   WellFormed(cs[1], cs[2]) /\ (TH(cs[2]) + Code(cs[1][1])) % NShards = Shard }
